@@ -47,6 +47,26 @@ class FnResult:
                 "obligations": [o.to_json() for o in self.obligations]}
 
 
+def _default_shape(a, nm):
+    """a parameter the contract does not mention (e.g. an optional one added later) is explored at its literal default"""
+    import ast as _ast
+    from .vals import Const
+    pos = a.posonlyargs + a.args
+    names = [x.arg for x in pos]
+    d = None
+    if nm in names:
+        i = names.index(nm) - (len(pos) - len(a.defaults))
+        if i >= 0:
+            d = a.defaults[i]
+    else:
+        for x, dv in zip(a.kwonlyargs, a.kw_defaults):
+            if x.arg == nm:
+                d = dv
+    if isinstance(d, _ast.Constant) and (d.value is None or isinstance(d.value, (bool, int, float, str))):
+        return Const(d.value)
+    return None
+
+
 def make_entry_env(I, fc):
     ex = fc.extracted
     a = ex.node.args
@@ -68,10 +88,14 @@ def make_entry_env(I, fc):
             continue
         shape = fc.params.get(nm)
         if shape is None:
+            shape = _default_shape(a, nm)
+        if shape is None:
             raise Unsupported("no shape declared for parameter %s of %s" % (nm, fc.key))
         env[nm] = I.fresh(shape, nm)
     for x in a.kwonlyargs:
         shape = fc.params.get(x.arg)
+        if shape is None:
+            shape = _default_shape(a, x.arg)
         if shape is None:
             raise Unsupported("no shape declared for parameter %s of %s" % (x.arg, fc.key))
         env[x.arg] = I.fresh(shape, x.arg)
